@@ -191,6 +191,21 @@ CHECKS = {
         "known_findings.json (GridBase._vector_to_cartesian on cylindrical grids; the repository's own test pins the wrong order). The "
         "typing pass tracks indices produced by get_axis_index and parameters named `components` only.",
     },
+    "C12": {
+        "level": "proof",
+        "technique": "static: abstract interpretation of geometry helpers and coordinate classes into sympy; exact integrals and sums; template matching for point normalisation; index-space typing of the periodicity flags handed to _difference_vector",
+        "text": "Proved identically in shape, bounds, spacing and inner radius: documented cell-centre formula; n-ball volumes; for each grid "
+        "class the product of cell_volume_data equals the exact integral of the extracted volume factor over the cell and the sum over all "
+        "cells equals the `volume` property (r_min = 0 and > 0); for all coordinate classes volume factor = |det J| = product of scale "
+        "factors and _cell_volume = box integral; pos_from_cart o pos_to_cart = id; all nine transform pairs return, cell<->grid are mutually "
+        "inverse affine maps with centres at index + 1/2; normalize_point equals the periodic / reflect templates (range, idempotence and "
+        "whole-period moves follow by the modulo lemma) in both code branches; integrate uses exactly the cell-volume factors of the "
+        "integrated axes; the periodic flags/bounds given to _difference_vector are Cartesian-indexed and tied to the Cartesian direction "
+        "of the periodic grid axis.",
+        "note": "Trusted: CPython ast, sympy (integrate, summation, simplify), the modulo lemma. Inverse maps of bipolar/bispherical (and angles "
+        "modulo 2*pi) are spot-evaluated on the extracted terms and recorded as such. Not decided: get_random_point containment and points "
+        "within round-off of a face; ScalarField.project only through the integrate weights.",
+    },
 }
 
 NOT_APPLICABLE: dict[str, str] = {}
